@@ -941,7 +941,7 @@ Definition nv_ops : list op :=
 Lemma nonvacuous :
   guard_F1 nv_cfg (PemOk [nv_entry 3 "old"]) nv_ops = false /\
   exists t1 t2,
-    snd (run false nv_cfg (PemOk [nv_entry 3 "old"]) nv_ops) =
+    snd (run true nv_cfg (PemOk [nv_entry 3 "old"]) nv_ops) =
       [XToken t1 true; XToken t1 true; XDone; XToken t2 true;
        XJwks [spec_jwk (nv_entry 5 "other"); spec_jwk (nv_entry 4 "new"); spec_jwk (nv_entry 3 "old")]] /\
     t_kid t1 = "old" /\ t_kid t2 = "new" /\ t_alg t2 = "PS384" /\
